@@ -294,12 +294,37 @@ Definition c18_basic_creds (raw : option (list byte)) : option (list byte * list
 Definition c18_auth_ok (f : list byte -> list byte -> bool) (raw : option (list byte)) : bool :=
   match c18_basic_creds raw with Some (u, p) => f u p | None => false end.
 
+(* body framing the header block declares (Content-Length / Transfer-Encoding fields).  http.ReadRequest
+   turns it into req.Body, a reader over the SAME bufio.Reader the pipelined bytes sit in: reading or
+   closing req.Body consumes stream bytes.  dispatch never touches req.Body of a CONNECT, so the
+   framing has no influence on c18_http_loop below; the field is carried so that the theorems and the
+   differential check quantify over it (CONNECT with Content-Length 0 / n / more than what follows,
+   chunked, both). *)
+Inductive c18_framing := FrNone | FrLen (n : N) | FrChunked.
+
 Record c18_hreq := mkHReq {
   hr_connect : bool;              (* method == CONNECT *)
   hr_addr : list byte;            (* host:port the code hands to HyClient.TCP (harness: canonical targets) *)
   hr_pauth : option (list byte);  (* raw Proxy-Authorization value as sent *)
   hr_keepalive : bool;            (* plain request: HTTP/1.1 and (Proxy-)Connection: keep-alive *)
-  hr_status : N }.                (* plain request: status the upstream answers with *)
+  hr_status : N;                  (* plain request: status the upstream answers with *)
+  hr_framing : c18_framing }.     (* declared body framing (CONNECT: ignored by the code) *)
+
+Definition c18_set_framing (fr : c18_framing) (r : c18_hreq) : c18_hreq :=
+  mkHReq (hr_connect r) (hr_addr r) (hr_pauth r) (hr_keepalive r) (hr_status r) fr.
+
+(* What a variant of dispatch that closes (or reads) req.Body of a CONNECT before the hand-over would
+   do to the reader: net/http's body.Close on a Content-Length n body reads and discards up to n bytes
+   - first what bufio holds, then from the connection.  Not called by c18_http_loop (the code as it is
+   does not do this); props/C18.v states what it would break. *)
+Fixpoint c18_script_discard (k : nat) (s : c18_script) : c18_script :=
+  match s with
+  | [] => []
+  | c :: t => if Nat.leb k (length c) then skipn k c :: t else c18_script_discard (k - length c) t
+  end.
+Definition c18_pre_discard (k : nat) (r : c18_pre) : c18_pre :=
+  if Nat.leb k (length (pr_buf r)) then mkPre (skipn k (pr_buf r)) (pr_conn r)
+  else mkPre [] (c18_script_discard (k - length (pr_buf r)) (pr_conn r)).
 
 Inductive c18_hev :=
 | HAuth (u p : list byte) (ok : bool)
